@@ -36,7 +36,8 @@ def replay(prop, path, seed):
     stream = v.get("stream", "")
     shown = None
     if stream.startswith("seq:") and isinstance(v.get("case"), list) and v["case"] and "op" in v["case"][0]:
-        f = os.path.join(work, "replay.ops")
+        # (the harness copies its input to <prefix>.ops: the input must be another file)
+        f = os.path.join(work, "replay-input.ops")
         open(f, "w").write("\n".join(c["op"] for c in v["case"]) + "\n")
         prefix = os.path.join(work, "replay")
         sh([os.path.join(BIN, "seq"), "file", f, prefix], timeout=1800)
@@ -66,7 +67,10 @@ def replay(prop, path, seed):
                 break
     elif stream.startswith("rustc-probes") and v.get("source"):
         import probes
-        rlib, deps, err = probes.lasso_rlib()
+        if str(v.get("fingerprint", "")).startswith("default-features"):
+            rlib, deps, err = probes.lasso_rlib_default()
+        else:
+            rlib, deps, err = probes.lasso_rlib()
         if rlib is None:
             shown = "lasso does not build for the probe"
         else:
